@@ -114,6 +114,11 @@ pub mod sync {
         pub mod error {
             #[derive(Debug)]
             pub struct SendError<T>(pub T);
+            #[derive(Debug)]
+            pub enum TrySendError<T> {
+                Full(T),
+                Closed(T),
+            }
         }
 
         pub struct ChanState {
@@ -146,6 +151,23 @@ pub mod sync {
             }
             pub fn capacity(&self) -> usize {
                 self.st().free.get()
+            }
+            pub fn is_closed(&self) -> bool {
+                self.st().closed.get()
+            }
+            /// non-waiting send: takes a free slot if there is one
+            pub fn try_send(&self, value: T) -> Result<(), error::TrySendError<T>> {
+                let st = self.st();
+                if st.closed.get() {
+                    Err(error::TrySendError::Closed(value))
+                } else if st.free.get() > 0 {
+                    st.free.set(st.free.get() - 1);
+                    st.sent.set(st.sent.get() + 1);
+                    std::mem::forget(value);
+                    Ok(())
+                } else {
+                    Err(error::TrySendError::Full(value))
+                }
             }
             pub fn reserve_owned(self) -> ReserveOwned<T> {
                 ReserveOwned { tx: Some(self) }
